@@ -37,6 +37,7 @@ class Opts:
         self.bare_quote_in_braces = True
         self.escapes = True
         self.at_line_start = False  # every @block starts on its own line
+        self.key_prefix = ""        # prepended to generated entry/string keys (disjoint pools)
         self.__dict__.update(kw)
 
 
@@ -114,11 +115,11 @@ def value(r, opts):
     return out
 
 
-def key(r, used, pool=None):
+def key(r, used, pool=None, prefix=""):
     if pool is not None:
         return r.choice(pool)
     while True:
-        k = "".join(r.choice(KEYCH) for _ in range(r.randint(1, 8)))
+        k = prefix + "".join(r.choice(KEYCH) for _ in range(r.randint(1, 8)))
         if r.random() < .1:
             k += r.choice(["é", "中", "ß"])
         if k not in used and not OPENER.search(k + "{"):
@@ -128,7 +129,7 @@ def key(r, used, pool=None):
 
 def entry(r, opts, used):
     typ = r.choice(TYPES)
-    k = key(r, used, opts.entry_keys)
+    k = key(r, used, opts.entry_keys, opts.key_prefix)
     nf = r.choice([0, 0, 1, 1, 2, 2, 3, 5])
     if opts.field_keys is not None:
         fks = [r.choice(opts.field_keys) for _ in range(nf)]
@@ -154,7 +155,7 @@ def entry(r, opts, used):
 
 
 def string(r, opts, used):
-    k = key(r, used, opts.string_keys)
+    k = key(r, used, opts.string_keys, opts.key_prefix)
     v = value(r, opts)
     txt = ("@" + r.choice(["string", "String", "STRING", "sTrInG"]) + r.choice(["", " ", "\t"]) + "{" + _ws(r, opts)
            + k + _ws(r, opts) + "=" + _ws(r, opts) + v + _ws(r, opts) + "}")
